@@ -81,6 +81,7 @@ type e2eConfig struct {
 	Extra    map[string]string // additional yaml lines key -> rendered value
 	Args     []string          // additional command-line arguments
 	Env      []string
+	Disabled map[string]bool // protocols (ipfix | nf9 | nf5 | sflow) switched off with <protocol>-enabled: false
 }
 
 // startVflow writes the configuration into dir and starts the collector; a start that fails because a port
@@ -122,6 +123,11 @@ func startVflowOnce(dir string, ports e2ePorts, cfg e2eConfig, race bool) (*vflo
 		"ipfix-tpl-cache-file":    fmt.Sprintf("%q", filepath.Join(dir, "ipfix.templates")),
 		"netflow9-tpl-cache-file": fmt.Sprintf("%q", filepath.Join(dir, "netflow9.templates")),
 		"mq-name":                 "rawSocket", "mq-config-file": "mq.conf",
+	}
+	for proto, key := range map[string]string{"ipfix": "ipfix-enabled", "nf9": "netflow9-enabled", "nf5": "netflow5-enabled", "sflow": "sflow-enabled"} {
+		if cfg.Disabled[proto] {
+			lines[key] = "false"
+		}
 	}
 	for k, v := range cfg.Extra {
 		lines[k] = v
@@ -181,13 +187,14 @@ func startVflowOnce(dir string, ports e2ePorts, cfg e2eConfig, race bool) (*vflo
 		// the stats listener comes up concurrently with the four protocol listeners; a protocol reports
 		// its workers only after its UDP socket is bound, so wait for all four
 		if fs, err := p.flowStats(); err == nil && fs.IPFIX != nil && fs.NetflowV9 != nil && fs.NetflowV5 != nil && fs.SFlow != nil &&
-			fs.IPFIX.Workers > 0 && fs.NetflowV9.Workers > 0 && fs.NetflowV5.Workers > 0 && fs.SFlow.Workers > 0 {
+			(fs.IPFIX.Workers > 0 || cfg.Disabled["ipfix"]) && (fs.NetflowV9.Workers > 0 || cfg.Disabled["nf9"]) &&
+			(fs.NetflowV5.Workers > 0 || cfg.Disabled["nf5"]) && (fs.SFlow.Workers > 0 || cfg.Disabled["sflow"]) {
 			return p, nil
 		}
 		time.Sleep(30 * time.Millisecond)
 	}
 	p.kill()
-	return p, fmt.Errorf("collector did not report all four listeners through its stats API within 10 s: %s", p.stderrTail())
+	return p, fmt.Errorf("collector did not report all enabled listeners through its stats API within 10 s: %s", p.stderrTail())
 }
 
 func (p *vflowProc) stderrText() string {
